@@ -1,7 +1,7 @@
 --------------------------- MODULE ComparersTrace ---------------------------
 (* Code -> spec binding for C16.  Every record is one real grader call (FormulaGrader / NumericalGrader / MatrixGrader
    configured with one of the comparers) on a randomly generated case that is larger than the exhaustive model:
-     kind, tol, jit, policy, evalerr, mode, cfg      as in Comparers!Allowed
+     kind, tol, jit, policy, evalerr, typed, mode, cfg      as in Comparers!Allowed
      P   per sample: the evaluated comparer parameters     [shape, ent (Gaussian integers), den]
      S   per sample: the evaluated submission
      obs what the code did: [k, g, ok, lvl, cls, sf]       (see Comparers, section "outcomes")
@@ -12,7 +12,7 @@
 EXTENDS Comparers, Json, IOUtils
 Trace == ndJsonDeserialize(IOEnv.TRACE_FILE)
 VARIABLE l
-CaseOf(r) == [kind |-> r.kind, tol |-> r.tol, jit |-> r.jit, policy |-> r.policy, evalerr |-> r.evalerr,
+CaseOf(r) == [kind |-> r.kind, tol |-> r.tol, jit |-> r.jit, policy |-> r.policy, evalerr |-> r.evalerr, typed |-> r.typed,
               P |-> r.P, S |-> r.S, mode |-> r.mode, cfg |-> r.cfg]
 RECURSIVE Join(_)
 Join(ss) == IF Len(ss) = 0 THEN "" ELSE Head(ss) \o (IF Len(ss) > 1 THEN " or " ELSE "") \o Join(Tail(ss))
